@@ -2,7 +2,7 @@
    all the assumed raft safety properties), with at most a minority of nodes down at every step. Witnesses closed by
    vm_compute. Each defect was first reproduced on the real code by the harness (see props/C05/NOTES.md). *)
 From Coq Require Import List Arith NArith ZArith Bool Lia.
-From OG Require Import C05.Model C05.Trunc C05.Catchup C05.ReadPath C05.RestartRace C05.TruncPM.
+From OG Require Import C05.Model C05.Trunc C05.Catchup C05.ReadPath C05.RestartRace C05.TruncPM C05.Persist.
 Import ListNotations.
 
 (* every prefix of the trace keeps a majority available *)
@@ -231,4 +231,15 @@ Proof.
   - cbn. repeat split; intros x Hx; cbn in Hx; repeat (destruct Hx as [<-|Hx]; [cbn; lia|]); contradiction.
   - cbn. repeat split; intros _ x Hx; cbn in Hx; repeat (destruct Hx as [<-|Hx]; [cbn; discriminate|]); contradiction.
   - unfold handover_rounds. cbn. do 6 right. left. reflexivity.
+Qed.
+
+(* (11) a follower that answers on the LEADER path (send first, write in parallel) - e.g. an ex-leader whose flag is never
+   reset on step-down (not today's code; the class of the change): member 1 acknowledges index 1 before it is durable,
+   the leader (member 0) commits with the quorum {0,1} and acknowledges the client, member 1 is killed: the write is
+   durable on one member of three; if the leader's store is lost next, no surviving member has it *)
+Theorem ack_before_persist_refuted :
+  exists es s, prun 3 false pinit es = Some s /\ pcommit s = 1 /\
+    cnt 3 (fun m => Nat.leb (pcommit s) (pd s m)) = 1 /\ ~ 3 < 2 * cnt 3 (fun m => Nat.leb (pcommit s) (pd s m)).
+Proof.
+  exists [PRecv 0 1; PPersist 0; PAck 0; PRecv 1 1; PAck 1; PCommit 1; PKill 1]. eexists. vm_compute. repeat split. lia.
 Qed.
